@@ -49,6 +49,8 @@
                                    the curve data, the engine, the ~Other text are EQUAL and
                                    the ~Version/~Well/~Parameter/custom sections keep their
                                    genuine items as a subsequence (las_frame).
+     C19_read_ok                   in particular a readable base file stays readable with junk
+                                   lines (read = ROk before => ROk after, frame holds).
    Nothing is _partial.  Outside the model (assumption of the harness): an exception raised
    from inside CPython's re on pathological lines. *)
 From Coq Require Import List Arith NArith Bool String.
@@ -187,6 +189,15 @@ Theorem C19_data_frame : forall fhex fstr numeq o t t' pre pre' bs bs',
   rres_frame (read fhex fstr numeq o t) (read fhex fstr numeq o t').
 Proof. exact read_junk_blocks. Qed.
 
+Theorem C19_read_ok : forall fhex fstr numeq o t t' pre pre' bs bs' l,
+  o_ignore_header_errors o = true ->
+  lines_keep t = pre ++ render bs -> lines_keep t' = pre' ++ render bs' ->
+  notitles pre -> notitles pre' -> Forall wf_block bs ->
+  Forall2 (junk_ins_block (o_mcase o)) bs bs' ->
+  read fhex fstr numeq o t = ROk l ->
+  exists l', read fhex fstr numeq o t' = ROk l' /\ las_frame l l'.
+Proof. exact read_junk_blocks_ok. Qed.
+
 (* what rres_frame / las_frame say, spelled out *)
 Theorem C19_frame_meaning : forall x y, rres_frame x y ->
   match x, y with
@@ -284,4 +295,5 @@ Print Assumptions C19_steering_lookup.
 Print Assumptions C19_steering_frame.
 Print Assumptions C19_data_reads_only.
 Print Assumptions C19_data_frame.
+Print Assumptions C19_read_ok.
 Print Assumptions C19_frame_meaning.
